@@ -328,7 +328,7 @@ func taintedBy(f *ssa.Function, v ssa.Value, depth int, seen map[ssa.Value]bool)
 	case *ssa.Call:
 		fn := calleeFunc(x)
 		if fn != nil {
-			switch fn.Name() {
+			switch nm(fn) {
 			case "Abs", "Clean", "Join":
 				return nil, false // sanitisers
 			case "SplitAbs", "Split", "Dir", "Base":
@@ -411,7 +411,7 @@ func c01Clean(rc *RuleCtx) {
 					}{x, x.Key})
 				}
 			case *ssa.Call:
-				if b, ok := x.Call.Value.(*ssa.Builtin); ok && b.Name() == "delete" && len(x.Call.Args) == 2 && isNodes(x.Call.Args[0]) {
+				if b, ok := x.Call.Value.(*ssa.Builtin); ok && nm(b) == "delete" && len(x.Call.Args) == 2 && isNodes(x.Call.Args[0]) {
 					out = append(out, struct {
 						in  ssa.Instruction
 						key ssa.Value
